@@ -813,6 +813,15 @@ fn quiescent(world: &mut World)
 fn top_acts(world: &mut World, t: usize, script: Vec<SAct>)
 {
     let owner = format!("top{t}");
+    // every other batch that needs no reactive accessor goes through `World::react` (commands, callback, flush) instead of
+    // a one-off system with `Commands`
+    let needs_access = script.iter().any(|a| matches!(a, SAct::ResSet(..) | SAct::ResRead(..) | SAct::Mutate(..) | SAct::MutNr(..)
+        | SAct::ResNr(..) | SAct::SetNeq(..) | SAct::ReadComp(..)));
+    if t % 2 == 1 && !needs_access
+    {
+        world.react(|rc| { let mut c = rc.commands(); run_script(&mut c, &mut Ctx::CommandsOnly, &script, &owner, 0); });
+        return
+    }
     world.syscall_once((), move |mut c: Commands, mut acc: Access| {
         run_script(&mut c, &mut Ctx::Full(&mut acc), &script, &owner, 0);
     });
